@@ -582,7 +582,95 @@ def oracle_isn_relabel(case, impl):
     return hits
 
 
+def oracle_nagle(case, impl):
+    """C18: with Nagle on, a NEW data segment smaller than the segment size is not put on the wire while earlier
+    data is unacknowledged - unless the peer's window is what limits it (the segment exactly fills what the window
+    leaves) - and no segment ever exceeds the window that was left for it."""
+    tr = Trace(case, impl)
+    hits = []
+    if any(l.startswith(("vs tmode", "vs chanclose")) for l in case):
+        return []
+    pending, outstanding, highest, nagle, wnd = [], {}, None, True, 0
+    wnd_hist, created, mss_min = [], [], None
+    for ev in tr.events:
+        if ev["op"] == "new":
+            wnd_hist, created, mss_min = [], [], None
+            o = ev["opts"]
+            nagle = o.get("nagle", "1") != "0"
+            wnd = int(o.get("rwnd", 1 << 20)) if o["dir"] == "out" else 0
+            pending, outstanding = [], {}
+            highest = (int(o.get("our", 101)) - 1) % 65536
+        if ev["op"] == "inject" and "dgram" in ev:
+            pending.append(ev["dgram"])
+        if ev["op"] != "poll" or "dgrams" not in ev:
+            continue
+        if ev["res"].startswith("ready"):
+            break
+        for d in pending:
+            if d["type"] in (3, 4):
+                continue
+            if highest is not None and (_md(d["ack"], highest) > 0 or _sack_beyond(d, highest)):
+                return hits            # the peer acknowledges data never sent: it broke its own connection
+            for q in list(outstanding):
+                if _md(d["ack"], q) >= 0:
+                    del outstanding[q]
+            if d["sack"] is not None:
+                raw = (bytes(d["sack"]) + bytes(8))[:8]
+                for b in range(64):
+                    if raw[b // 8] >> (b % 8) & 1:
+                        outstanding.pop((d["ack"] + 2 + b) % 65536, None)
+        pending = []
+        if not ev["fp"].get("st", "").startswith(("Established", "FinWait1")):
+            continue
+        try:
+            wnd = int(ev["fp"].get("lrw", wnd))
+            mss = int(ev["fp"].get("ss", "min_ss=0:").split("min_ss=")[1].split(":")[0])
+        except (TypeError, ValueError, IndexError):
+            continue
+        wnd_hist.append(wnd)
+        # segments are sized when they are created: full size under the segment size of that time
+        mss_min = mss if mss_min is None else min(mss_min, mss)
+        mss = mss_min
+        for d in ev["dgrams"]:
+            if d["type"] != 0:
+                if d["type"] == 1 and (highest is None or _md(d["seq"], highest) > 0):
+                    highest = d["seq"]
+                continue
+            new_seq = highest is None or _md(d["seq"], highest) > 0
+            if new_seq:
+                highest = d["seq"]
+                in_flight = sum(outstanding.values())
+                if nagle and outstanding and 0 < d["plen"] < mss and ev["fp"].get("rtor", "0") == "0":
+                    # window-limited in the code's sense: one segmentation pass hands out at most the peer's window;
+                    # this segment, together with the j segments created just before it, exactly uses up a window
+                    # value the peer has advertised at some point
+                    ok = False
+                    tot = d["plen"]
+                    for j in range(0, len(created) + 1):
+                        if j > 0:
+                            tot += created[-j][1]
+                        # the run may have been created in any pass since the segment before it went out
+                        idx = 0      # a segment may wait arbitrarily long between its creation and its first transmission
+                        if tot in wnd_hist[idx:]:
+                            ok = True
+                            break
+                        if tot > max(wnd_hist[idx:] + [0]):
+                            break
+                    if not ok:
+                        hits.append({"sig": {"oracle": "nagle", "what": "small_segment_with_data_in_flight"},
+                                     "text": f"new segment seq {d['seq']} carries {d['plen']} bytes (segment size {mss}) while {in_flight} earlier bytes are unacknowledged, and it does not use up the peer's window ({wnd}) either alone or together with the segments created just before it: the window is not what limits it (Nagle is on)"})
+                created.append((d["seq"], d["plen"], len(wnd_hist) - 1))
+            else:
+                # a popped probe is re-segmented under the same number with a new size
+                created = [(q, d["plen"] if q == d["seq"] else ln, ix) for (q, ln, ix) in created]
+            outstanding[d["seq"]] = d["plen"]
+        if len(hits) >= 2:
+            break
+    return hits[:2]
+
+
 ALL = {
+    "nagle": oracle_nagle,
     "isn_relabel": oracle_isn_relabel,
     "task_ends": oracle_task_ends,
     "retx_cap": oracle_retx_cap,
